@@ -1,37 +1,36 @@
 #!/bin/bash
 # mutcheck.sh <id> <srcdir with patch.diff, seeded_demo_test.go, meta.json> <prop> [more props...]
-# 1. confirms the seeded change in a fresh scratch worktree (suite passes, demo fails with / passes without)
-# 2. applies it to /repo, runs the given checks (quick), undoes it
-# 3. stores everything under /verif/seeded/<id>/
+# 1. confirms the seeded change in a fresh scratch worktree of /repo (suite passes, demo fails with / passes without)
+# 2. runs the given checks (quick) against that scratch worktree (ARK_REPO), never touching /repo itself
+# 3. stores everything under /verif/seeded/<id>/ and removes the worktree
 set -u
 id=$1; src=$2; shift 2; props="$@"
 export GOFLAGS=-mod=mod GOPROXY=off
 dst=/verif/seeded/$id; mkdir -p $dst
-cp $src/patch.diff $src/meta.json $dst/ 2>/dev/null
-cp $src/seeded_demo_test.go $dst/seeded_demo_test.go.txt 2>/dev/null
+[ "$(readlink -f $src)" != "$(readlink -f $dst)" ] && { cp $src/patch.diff $src/meta.json $dst/ 2>/dev/null; cp $src/seeded_demo_test.go $dst/seeded_demo_test.go.txt 2>/dev/null; }
+echo "$props" > $dst/props.txt
 wt=/tmp/mutv-$id; git -C /repo worktree remove --force $wt 2>/dev/null; rm -rf $wt
 git -C /repo worktree add -q --detach $wt HEAD || exit 2
 cd $wt
-race=""; grep -q '"race"' $dst/meta.json 2>/dev/null && race="-race"; grep -qi 'go test -race' $dst/meta.json 2>/dev/null && race="-race"
+race=""; grep -qi 'go test -race' $dst/meta.json 2>/dev/null && race="-race"
 cp $dst/seeded_demo_test.go.txt ecs/seeded_demo_test.go
+tags=""; 
 go test $race -vet=off -count=1 -run 'TestSeededDemo' ./ecs > $dst/demo_without.log 2>&1; without=$?
 git apply $dst/patch.diff || { echo "patch does not apply"; exit 2; }
 go test $race -vet=off -count=1 -run 'TestSeededDemo' ./ecs > $dst/demo_with.log 2>&1; with=$?
 rm ecs/seeded_demo_test.go
 go test -vet=off -count=1 ./... > $dst/suite_with.log 2>&1; suite=$?
-cd /verif; git -C /repo worktree remove --force $wt
 echo "confirm: demo_without_rc=$without (want 0) demo_with_rc=$with (want !=0) suite_with_rc=$suite (want 0)"
 res="{\"demo_passes_without\": $([ $without = 0 ] && echo true || echo false), \"demo_fails_with\": $([ $with != 0 ] && echo true || echo false), \"suite_passes_with\": $([ $suite = 0 ] && echo true || echo false), \"checks\": {"
-git -C /repo diff --quiet || { echo "/repo not clean"; exit 2; }
-git -C /repo apply $dst/patch.diff || exit 2
+cd /verif
 first=1
 for p in $props; do
-  out=$(./check $p quick 2>&1); rc=$?
-  echo "$out" > $dst/check_$p.log
+  out=$(ARK_REPO=$wt VERIF_BIN=bin-mut-$id VERIF_EVIDENCE=/verif/tmp/evidence-mut ./check $p quick 2>&1); rc=$?
+  echo "$out" | grep -v "^minimised" | cut -c1-2000 > $dst/check_$p.log
   echo "check $p rc=$rc: $(echo "$out" | grep -E '^VIOLATION|signature=' | head -2 | cut -c1-260 | tr '\n' ' ')"
   [ $first = 1 ] || res="$res, "; first=0
   res="$res\"$p\": $rc"
 done
-git -C /repo checkout -- . ; git -C /repo status --short | grep -v '^??' | head -2
+git -C /repo worktree remove --force $wt; rm -rf /verif/bin-mut-$id
 res="$res}}"
 echo "$res" > $dst/verif_result.json
